@@ -91,7 +91,7 @@ def function_level(r):
 
 
 def run():
-    chk = Check("C09", props_modules=["GFO.Props.C09", "GFO.Props.GaSelect", "GFO.Props.SmboRuns", "GFO.Props.DirectSelect", "GFO.Props.SortPop", "GFO.Gen.PopGenCheck", "GFO.Gen.SmboGenCheck"], gen_steps=(translators.gen_pop, translators.gen_smbo, translators.gen_tracker))
+    chk = Check("C09", props_modules=["GFO.Props.C09", "GFO.Props.GaSelect", "GFO.Props.SmboRuns", "GFO.Props.DirectSelect", "GFO.Props.SortPop", "GFO.Gen.PopGenCheck", "GFO.Gen.SmboGenCheck", "GFO.Gen.GaGenCheck"], gen_steps=(translators.gen_pop, translators.gen_smbo, translators.gen_tracker, translators.gen_ga))
     chk.build_and_audit()
     r = C.rng("C09")
     quick = C.tier() != "thorough"
